@@ -1,8 +1,10 @@
-/- Driver ops for Snake.  Ops: snake.state, snake.step, snake.judge, snake.instance, snake.bounds -/
+/- Driver ops for Snake.  Ops: snake.state, snake.step, snake.judge, snake.instance, snake.bounds, snake.spec -/
 import JumanjiModel.Bridge.Json
 import JumanjiModel.Env.Snake.Model
 import JumanjiModel.Env.Snake.Bounds
 import JumanjiModel.Prim.Float
+import JumanjiModel.Bridge.Spec
+import JumanjiModel.Env.Snake.SpecValid
 open Lean Jb
 
 namespace Jb.Snake
@@ -46,6 +48,11 @@ def jObs (o : Obs) (withHead : Bool := true) : Json :=
         [("tail", jRatGrid o.tail), ("fruit", jRatGrid o.fruit), ("norm", jRatGrid o.norm),
          ("step_count", jInt o.stepCount), ("action_mask", jBools o.actionMask)])
 
+def jNValue (v : Sp.NValue) : Json := jList (fun (e : String × Sp.Arr) => jObj [("key", jStr e.1), ("value", SpecOps.jArr e.2)]) v
+
+/-- the flat fruit index read off a state (the draw of `_sample_fruit_coord`) -/
+def fruitDraw (cfg : Cfg) (s : State) : Nat := s.fruit.row.toNat * cfg.cols + s.fruit.col.toNat
+
 def getObs (j : Json) : Except String Obs := do
   pure { body := ← fRatGrid j "body", head := ← fRatGrid j "head", tail := ← fRatGrid j "tail",
          fruit := ← fRatGrid j "fruit", norm := ← fRatGrid j "norm", stepCount := ← fInt j "step_count",
@@ -65,7 +72,14 @@ def opState : Op := fun j => do
               ("legal", jBools (legalMask cfg s)),
               ("obs", jObs (observe rnd cfg s) headIn),
               ("consistent", jBool (consistentB cfg s)),
-              ("objective", jInt (objective s))])
+              ("objective", jInt (objective s)),
+              -- wave 4 (C01 membership): the timestep the model's `reset` builds from the draws read off this state (head cell,
+              -- fruit cell), the L1 observation of the state (`_state_to_observation`: cached planes and mask, scatters wrap)
+              -- as spec-level arrays (the five planes stacked on the last axis), `(obsSpec cfg).valid` of it, the invariant
+              ("reset_ts", jTimeStep (fun o => jObs o) (reset rnd cfg s.head.row.toNat s.head.col.toNat (fruitDraw cfg s)).2),
+              ("nvalue", jNValue (toNValue (stateToObs rnd s))),
+              ("obs_in_spec", jBool ((obsSpec cfg).valid (toNValue (stateToObs rnd s)))),
+              ("spec_inv", jBool (decide (SpecInv cfg s)))])
 
 /-- {cfg, state, action, draw} → L1 step; valid = L2 legality; spec = L2 successor (null if illegal /
     inconsistent); draw_valid = the fruit draw is admissible (null when no fruit is eaten) -/
@@ -107,7 +121,11 @@ def opInstance : Op := fun j => do
               ("draws_valid", jBool (decide (inGrid cfg s.head.row s.head.col) && decide (validDraw cfg s.body d))),
               ("length_one", jBool (s.length == 1 && s.stepCount == 0)),
               ("fruit_not_head", jBool (decide (s.fruit ≠ s.head) && decide (inGrid cfg s.fruit.row s.fruit.col)
-                                        && decide (inGrid cfg s.head.row s.head.col)))])
+                                        && decide (inGrid cfg s.head.row s.head.col))),
+              -- wave 4: the invariant of the C01 membership theorems and membership of the reset observation
+              ("spec_inv", jBool (decide (SpecInv cfg s))),
+              ("reset_obs_in_spec", jBool ((obsSpec cfg).valid
+                 (toNValue (reset rnd cfg s.head.row.toNat s.head.col.toNat d).2.obs)))])
 
 /-- {cfg} → {leaf path: {"lo": rat|null, "hi": rat|null}}: the proved value bounds `obsBounds cfg` (C01) -/
 def opBounds : Op := fun j => do
@@ -115,6 +133,14 @@ def opBounds : Op := fun j => do
   let jo : Option Rat → Json := fun o => match o with | none => .null | some r => jRat r
   pure (jObj ((obsBounds cfg).map (fun (k, lo, hi) => (k, jObj [("lo", jo lo), ("hi", jo hi)]))))
 
+/-- {cfg} → the model's `obsSpec cfg`, `actionSpec`, reward and discount spec in the `speclib.leaf_json` layout, and
+    `generate_value()` of the action spec -/
+def opSpec : Op := fun j => do
+  let (cfg, _) ← getCfg j
+  pure (jObj [("observation_spec", SpecOps.jNested (obsSpec cfg)), ("action_spec", SpecOps.jLeaf actionSpec),
+              ("reward_spec", SpecOps.jLeaf PzS.rewardSpec), ("discount_spec", SpecOps.jLeaf PzS.discountSpec),
+              ("action_spec_wf", jBool actionSpec.WF), ("generate_value", SpecOps.jArr actionSpec.generate)])
+
 def ops : List (String × Op) :=
-  [("snake.bounds", opBounds), ("snake.state", opState), ("snake.step", opStep), ("snake.judge", opJudge), ("snake.instance", opInstance)]
+  [("snake.spec", opSpec), ("snake.bounds", opBounds), ("snake.state", opState), ("snake.step", opStep), ("snake.judge", opJudge), ("snake.instance", opInstance)]
 end Jb.Snake
